@@ -2229,7 +2229,15 @@ func (cs Conditions) inlineTagFilter(tags map[string]TagDetails) ConditionsSet {
 		tagConditionsSet := td.Conditions.InlineTagFilters(tags)
 		//TODO: rename subqueries in tagConditionsSet to not collide with the normal query
 		if c.Accept&uncertain == TagConditionAcceptUncertainFailing {
-			tagConditionsSet = tagConditionsSet.invert()
+			if len(tagConditionsSet) == 0 {
+				// the definition can never match (Parse stores an impossible query,
+				// e.g. the `id:-1` of an empty mark, as the empty set): every
+				// uncertain stream fails it. invert() of the empty set is the empty
+				// set again, which dropped the whole uncertain branch.
+				tagConditionsSet = ConditionsSet{Conditions{}}
+			} else {
+				tagConditionsSet = tagConditionsSet.invert()
+			}
 		}
 		origLen := len(csNew)
 		for range tagConditionsSet {
